@@ -124,8 +124,12 @@ def make_objects(spec, cfg_dt_src):
     for i, b in enumerate(spec.get("blocks") or []):
         shape = tuple(int(hi - lo) for lo, hi in b["box"])
         o = fdtdx.UniformMaterialObject(name=b.get("name", f"blk{i}"), partial_grid_shape=shape, material=mk_material(b),
-                                        **({"placement_order": int(b["order"])} if "order" in b else {}))
-        if b.get("real_lo") is not None:
+                                        **({"placement_order": int(b["order"])} if "order" in b else {}),
+                                        # centre of the object relative to the centre of the domain, in metres (no other positioning then)
+                                        **({"partial_real_position": tuple(float(v) for v in b["real_pos"])} if b.get("real_pos") is not None else {}))
+        if b.get("real_pos") is not None:
+            pass
+        elif b.get("real_lo") is not None:
             # lower face pinned to an ABSOLUTE physical coordinate along one axis (snapped to the nearest grid edge), grid indices elsewhere
             from fdtdx.objects.object import RealCoordinateConstraint, GridCoordinateConstraint
             ra = int(b["real_lo"]["axis"])
@@ -212,6 +216,18 @@ def make_objects(spec, cfg_dt_src):
             raise ValueError(kind)
         cons += box_constraints(o, d["box"])
         objs.append(o)
+    if spec.get("gds_rib"):      # a GDS layer object (StaticMultiMaterialObject; optional sub-pixel smoothing: fractional fill at its side walls)
+        import gdstk
+        from fdtdx.objects.static_material.gds_layer_stack import GDSLayerSpec, gds_layer_stack
+        g = spec["gds_rib"]
+        lib = gdstk.Library(unit=1e-6, precision=1e-9)
+        cell_ = lib.new_cell("RIB")
+        cell_.add(gdstk.Polygon([tuple(p) for p in g["poly_um"]], layer=1, datatype=0))
+        mats = {"rib": mk_material(g), "bg": fdtdx.Material(permittivity=float(g.get("bg_eps", 1.0)))}
+        layers = [GDSLayerSpec(gds_layer=1, material_name="rib", thickness=float(g["thickness"]), z_base=float(g["z_base"]), sidewall_angle=90.0,
+                               subpixel_smoothing=bool(g.get("smooth", True)))]
+        ro, rc = gds_layer_stack(lib, "RIB", layers, mats, vol, gds_center=(0.0, 0.0))
+        objs.extend(ro); cons.extend(rc)
     return objs, cons, vol
 
 
